@@ -5,7 +5,7 @@ reg(Check(
     coq_targets=["Subscribe/C05Check.vo", "Subscribe/C07Check.vo", "Subscribe/SubProofs.vo", "Subscribe/SubCheckProofs.vo", "Props/C07.vo"],
     assumptions=[
         "the ACL is an oracle allow(user, target) that does not change during one RPC; NewRPCACL either fails or yields the per-RPC check of one user",
-        "sequential script: the subscriber is quiescent between two steps (one cache operation at a time, its responses drained before the next); the never_sends_denied invariant does not depend on this, the completeness clause is stated for such scripts",
+        "sequential script: the subscriber is quiescent between two steps (one cache operation at a time, its responses drained before the next); the never_sends_denied invariant does not depend on this, the completeness clause is stated for such scripts; two overlapping calls on one server are modelled as independent responders over the same cache script",
         "cache content is data only (no 'meta' paths, no deprecated 'element' paths, int values); responses carry a non-nil prefix (the cache rejects notifications without one)",
         "gRPC transport replaced by an in-memory stream whose context carries a peer; every response passed to Send is observed",
     ],
